@@ -18,7 +18,7 @@ def _init_defined(ix, cls):
     out = {}
     for c in ix.mro(cls):
         if isinstance(c, ClassInfo) and '__init__' in c.methods:
-            ef = E.method_effects(c.methods['__init__'].node)
+            ef = E.method_effects(c.methods['__init__'])
             for a, vals in ef.writes.items():
                 out.setdefault(a, vals[-1])
     return out
@@ -72,7 +72,7 @@ def _cowritten(ix, cls, G):
         for name, f in c.methods.items():
             if name == '__init__' or ix.resolve_method(cls, name) is not f:
                 continue
-            ef = E.method_effects(f.node)
+            ef = E.method_effects(f)
             if G in ef.writes:
                 tot = E.transitive_effects(ix, cls, name)
                 w = set(tot.writes)
@@ -81,7 +81,7 @@ def _cowritten(ix, cls, G):
                     if isinstance(call, ast.Call):
                         g = D._delegation(ix, cls, f.owner, call)
                         if g is not None:
-                            w |= set(E.method_effects(g.node).writes)
+                            w |= set(E.method_effects(g).writes)
                 result = w if result is None else (result & w)
     return result or set()
 
@@ -107,11 +107,11 @@ def check(ix, rep):
         initd = _init_defined(ix, cls)
         established = {}  # id(func) -> attrs known to exist when the function body (after its guard) runs
         for f, caller in chain2:
-            ef = E.method_effects(f.node)
+            ef = E.method_effects(f)
             guards = _guards(f.node)
             cow = set(established.get(id(caller), set())) if caller is not None else set()
             if caller is not None:
-                cow |= set(E.method_effects(caller.node).writes)
+                cow |= set(E.method_effects(caller).writes)
             for g in guards:
                 cow |= _cowritten(ix, cls, g) | {g}
             established[id(f)] = cow | set(ef.writes)
@@ -170,7 +170,7 @@ def check(ix, rep):
         rep.analysed(upf)
         reset_writes = {}
         for f in chain:
-            for a, vals in E.method_effects(f.node).writes.items():
+            for a, vals in E.method_effects(f).writes.items():
                 reset_writes.setdefault(a, []).extend(vals)
         for attr in sorted(up.writes):
             if attr not in up.reads:
@@ -255,6 +255,28 @@ def _reset_visitor(ix, rep, mon, initd):
         else:
             rep.fail('R-STATE', f.module.rel, f.qual, '%s:reach' % mon.kind,
                      'reset visitor handler does not %s' % ('descend into the children' if not kids else 'reset the operator stored under node.name'), f.node.lineno)
+    # the reset visitor lives as long as the interpreter: anything it remembers across a traversal must be renewed when the
+    # next traversal starts, otherwise the second reset() behaves differently from the first
+    persistent = {}
+    for c in ix.mro(rv):
+        if isinstance(c, ClassInfo):
+            for name, f in c.methods.items():
+                if name == '__init__' or ix.resolve_method(rv, name) is not f:
+                    continue
+                ef = E.method_effects(f)
+                for a in ef.written_attrs():
+                    persistent.setdefault(a, []).append(f)
+    entry = ix.resolve_method(rv, 'visitAst')
+    entry_writes = set(E.method_effects(entry).writes) if entry is not None else set()
+    for a, fs in sorted(persistent.items()):
+        renewed = a in entry_writes and any(E.self_loc(st.targets[0]) == a for st in ast.walk(entry.node) if isinstance(st, ast.Assign))
+        only_entry = all(f is entry for f in fs)
+        if renewed or only_entry:
+            rep.ok('R-STATE', fs[0].module.rel, rv.name, '%s:visitor-state:%s' % (mon.kind, a), 'renewed at the start of every traversal', fs[0].node.lineno)
+        else:
+            rep.fail('R-STATE', fs[0].module.rel, '%s.%s' % (rv.name, fs[0].name), '%s:visitor-state:%s' % (mon.kind, a),
+                     'the reset visitor remembers self.%s across calls (written in %s) and visitAst() does not renew it: the visitor object lives as long as the '
+                     'interpreter, so from the second reset() on operators are skipped and keep their history' % (a, ', '.join(sorted({f.name for f in fs}))), fs[0].node.lineno)
     d = ix.resolve_method(rv, 'visit')
     # the reset visitor dispatches on Binary/Unary/Leaf: all node classes are one of the three
     bn = {c.name for c in D.node_classes(ix)}
